@@ -13,7 +13,7 @@
 (* for the whole string), the impl-shaped prediction and the input class of every code.           *)
 EXTENDS CMap, Json
 
-CONSTANTS Lens, NCodes, MaxDefs, Dev_h34, Dev_h35, Emit, KnownClasses, BaseVal
+CONSTANTS Lens, NCodes, MaxDefs, Dev_h34, Dev_h35, Emit, KnownClasses, BaseVal, Rich
 
 VARIABLES defs, maps
 vars == <<defs, maps>>
@@ -28,7 +28,9 @@ BaseMid  == [l \in 1..3 |-> CASE l = 1 -> 65 [] l = 2 -> 33088          [] l = 3
 Codes(l) == BaseVal[l]..(BaseVal[l] + NCodes - 1)
 
 SingleVals == {<<65>>, <<66>>}
-MultiVals  == {<<102, 105>>, <<55357, 56832>>}                   \* "fi", U+1F600 as a surrogate pair
+MultiVals  == IF Rich THEN {<<102, 105>>, <<55357, 56832>>}      \* "fi", U+1F600 as a surrogate pair
+              ELSE {<<55357, 56832>>}
+ArrForms   == IF Rich THEN {1, 2} ELSE {2}
 ArrA(n) == [i \in 1..n |-> <<97 + i>>]
 ArrB(n) == [i \in 1..n |-> IF i % 2 = 1 THEN <<102, 108 + i>> ELSE <<55357, 56840 + i>>]
 
@@ -49,7 +51,7 @@ AddRangeStr ==
 
 AddRangeArr ==
     /\ Len(defs) < MaxDefs
-    /\ \E l \in Lens : \E lo \in Codes(l) : \E hi \in Codes(l) : \E f \in {1, 2} :
+    /\ \E l \in Lens : \E lo \in Codes(l) : \E hi \in Codes(l) : \E f \in ArrForms :
           LET d == MkDef("range", l, lo, hi, Arr(IF f = 1 THEN ArrA(hi - lo + 1) ELSE ArrB(hi - lo + 1))) IN
           lo <= hi /\ defs' = Append(defs, d) /\ maps' = Put(dev, maps, d)
 
@@ -76,6 +78,12 @@ RefinesExceptKnown ==
     \A i \in 1..Len(AllCodes) : LET c == AllCodes[i] IN
           IF Covered(defs, c[1], c[2]) THEN (Mismatch(c) => CaseClass(defs, c[1], c[2]) \in KnownClasses)
           ELSE Got(c) = <<>>
+
+\* strict refinement that reports its counter-example (used "as the code is": must be violated, and
+\* the reported classes must be listed ones)
+RefinesCex ==
+    Refines \/ LET cs == SelectSeq(CovSeq, Mismatch) IN
+               PrintT(<<"CEX", ToJson([d |-> defs, k |-> [i \in 1..Len(cs) |-> CaseClass(defs, cs[i][1], cs[i][2])]])>>) /\ FALSE
 
 \* the segmentation loop returns the concatenation of the per-code results (prefix-free codes)
 SegmentationOK ==
